@@ -44,7 +44,7 @@ def views(tier):
 def analyse(facts, tier):
     obls = []
     for name in ('WOPN_LoadBankFromMem', 'WOPN_LoadInstFromMem'):
-        o, eng = run_e1(facts, name, 'C02.R1', forks_assign={'version': [0, 1, 2, 3]})
+        o, eng = run_e1(facts, name, 'C02.R1', forks_assign={'@version': [0, 1, 2, 3]})
         obls += o
     obls += r2(facts)
     obls += r3(facts)
